@@ -175,8 +175,13 @@ Degenerate == \/ Z = 0 \/ PowM(Z, E.lde) = 1 \/ PowM(DivM(Z, E.offset), E.lde) =
 \* the verifier performed (MerkleChain.tla); judged when the algebra holds
 CommitOK == /\ Len(E.trees) = (IF Len(E.aux_rows) > 0 THEN 3 ELSE 2) + E.layers
             /\ \A i \in DOMAIN E.trees : TreeOK(E.merges, E.trees[i])
+\* the real verifier found H(z) inconsistent with its own evaluation of the constraints on the frame.  When the specification finds the
+\* relation to hold this is a disagreement about the expression itself (not a rejection to be explained by a later stage: a verifier
+\* that stops here draws no DEEP coefficients, which must not be read as "coefficients missing")
+VerifierRejectsOod == E.verdict = "InconsistentOodConstraintEvaluations"
 Algebra == IF ~ShapeOK THEN "shape" ELSE IF ~CoeffsOK THEN "coefficients" ELSE IF Degenerate THEN "degenerate"
-           ELSE IF ~OodOK THEN "ood" ELSE IF ~DeepCoeffsOK THEN "coefficients" ELSE FriEnd
+           ELSE IF ~OodOK THEN "ood" ELSE IF VerifierRejectsOod THEN "ood-verifier-disagrees"
+           ELSE IF ~DeepCoeffsOK THEN "coefficients" ELSE FriEnd
 \* the prover stage is judged on honest runs that the verifier's stages accept
 ModelStage == IF Algebra = "accept" /\ ~CommitOK THEN "commitment"
               ELSE IF Algebra = "accept" /\ HasTrace /\ ~E.cheat /\ ProverStage # "ok" THEN ProverStage
@@ -186,6 +191,7 @@ Proof == /\ E.ev = "proof"
          /\ LET ms == ModelStage
             IN  /\ PrintT(<<"VM", E.id, ms, E.verdict>>)
                 /\ (ms = "degenerate" \/ ((E.verdict = "accept") <=> (ms = "accept")))
+                /\ ms # "ood-verifier-disagrees"
 
 Next == l <= Len(Rec) /\ Proof /\ l' = l + 1
 Accepted ==
